@@ -624,6 +624,18 @@ func totalOrderCmp(f *ssa.Function) bool {
 		return false
 	}
 	elem := func(v ssa.Value, idx ssa.Value) bool {
+		// (conversions between a named byte-slice type and []byte do not change the element)
+		for {
+			if ct, ok := v.(*ssa.ChangeType); ok {
+				v = ct.X
+				continue
+			}
+			if cv, ok := v.(*ssa.Convert); ok {
+				v = cv.X
+				continue
+			}
+			break
+		}
 		// *(&s[idx]) or s[idx]
 		if u, ok := v.(*ssa.UnOp); ok && u.Op == token.MUL {
 			if ia, ok := u.X.(*ssa.IndexAddr); ok {
